@@ -13,7 +13,7 @@ def generate_source_code(docstring, parsed):
     # Convert the parse tree into a list of parsing expressions.
     nodes = parser.transform(parsed.body, _create_parsing_expression)
 
-    out = CodeBuilder()
+    out = _CodeBuilder()
     out.add_docstring(docstring)
 
     flags = _Flags(uses_context=parsed.name is not None)
@@ -256,6 +256,14 @@ def generate_source_code(docstring, parsed):
             ))
 
     return out
+
+
+class _CodeBuilder(CodeBuilder):
+    # Start the names of all generated variables with an underscore, so that
+    # they cannot collide with the names that the grammar itself uses (which
+    # are emitted as they are, like a class field called "value2").
+    def _reserve_name(self, base_name):
+        return CodeBuilder._reserve_name(self, '_' + base_name.lstrip('_'))
 
 
 class _Flags:
